@@ -88,9 +88,10 @@ pub fn language_tokinizer(tokinizer: &mut Tokinizer) {
         comment_regex_parser(tokinizer.config, tokinizer, items);
     }
 
-    let lowercase_data = tokinizer.data.to_lowercase();
+    /* A lowercase copy can have different positions than the original text (İ, ı, ß), the patterns are case insensitive */
+    let data = tokinizer.data.to_string();
     for func in LANGUAGE_BASED_TOKEN_PARSER.iter() {
-        func(tokinizer.config, tokinizer, &lowercase_data);
+        func(tokinizer.config, tokinizer, &data);
     }
 
     tokinizer.cleanup_token_infos();
